@@ -73,7 +73,7 @@ static rc::Gen<std::string> password() {
 
 static void run() {
     setup(); Args& a = W().args;
-    rc_run("c12-crypt", a.n(12000, 300000), 100, [&]() {
+    rc_run("c12-crypt", a.n(30000, 300000), 100, [&]() {
         Case c; c.set("secret", hex(*g::secret19())); c.set("birthday", (uint64_t)*g::birthday()); c.set("features", *in_range<unsigned>(0, 32) & 0x17u);
         std::string pw = *password(); if (pw.find('\0') != std::string::npos) pw.resize(pw.find('\0')); c.set("pw", hex(pw));
         int n = *rc::gen::element(1, 1, 2, 2, 2, 3, 4); std::string chain; bool mixed = *in_range<int>(0, 3) == 0; for (int i = 0; i < n; i++) chain.push_back((char)(mixed ? *in_range<int>(0, 3) : *in_range<int>(0, 2)));
